@@ -148,6 +148,7 @@ type Op struct {
 	Docs     []int      `json:"docs,omitempty"`
 	Pairs    []Pair     `json:"pairs,omitempty"`
 	Level    string     `json:"level,omitempty"`
+	Slow     bool       `json:"slow,omitempty"` // persist/merge: the destination sleeps inside every Write
 	Wrap     int        `json:"wrap,omitempty"` // persist/merge: the destination is a *bufio.Writer of this size ...
 	Pre      int        `json:"pre,omitempty"`  // ... in which this many bytes of the caller are still pending
 	Terms    []Pair     `json:"terms,omitempty"`
@@ -713,6 +714,11 @@ func (e *Env) doPersist(op *Op) {
 // *bufio.Writer of that size in which op.Pre bytes of the caller's own data are still pending. done() flushes
 // as the caller would and returns the bytes that arrived after the caller's own.
 func wrapDest(buf *bytes.Buffer, op *Op) (io.Writer, func() []byte) {
+	if op.Slow {
+		// a slow destination (a pipe, a replica): the call stays inside Write long enough for other calls on
+		// the same object to start and finish meanwhile
+		return &slowWriter{w: buf}, func() []byte { return buf.Bytes() }
+	}
 	if op.Wrap <= 0 {
 		return buf, func() []byte { return buf.Bytes() }
 	}
@@ -726,6 +732,15 @@ func wrapDest(buf *bytes.Buffer, op *Op) (io.Writer, func() []byte) {
 		bw.Flush()
 		return buf.Bytes()[op.Pre:]
 	}
+}
+
+type slowWriter struct{ w io.Writer }
+
+func (s *slowWriter) Write(p []byte) (int, error) {
+	time.Sleep(3 * time.Millisecond)
+	n, err := s.w.Write(p)
+	time.Sleep(3 * time.Millisecond)
+	return n, err
 }
 
 func (e *Env) doLoad(op *Op) {
@@ -1282,9 +1297,12 @@ func (e *Env) doMatch(op *Op) {
 	e.emit(M{"ev": "match", "seg": op.Seg, "pairs": pe, "res": res})
 }
 
+// statsEv: the 64-bit sum is split into base-2^20 digits (TLC integers are 32 bit; the specification adds in
+// the same representation)
 func statsEv(cs segment.CollectionStats) M {
+	v := cs.SumTotalTermFrequency()
 	return M{"total": clampInt(cs.TotalDocumentCount()), "docs": clampInt(cs.DocumentCount()),
-		"sumttf": clampInt(cs.SumTotalTermFrequency())}
+		"sumttf": M{"hi": clampInt(v >> 20), "lo": int(v & (1<<20 - 1))}}
 }
 
 func (e *Env) doStats(op *Op) {
